@@ -16,6 +16,7 @@ const (
 	vkInDir       // "d/g<i>"
 	vkDeep        // "d/e/h<i>"
 	vkDeepDir     // "d/e/m<i>/": an explicit directory entry two levels down
+	vkDeflated    // "z<i>": 48 highly compressible bytes, stored deflated
 	vkNested      // "n<i>.zip" holding an archive of its own
 	vkFakeZip     // "k<i>.zip" that is not an archive
 	vkKinds
@@ -71,6 +72,8 @@ func vGenEntries(tag string, maxEntries int, allowNested bool, recursive bool, d
 				st.maxDepth = depthBase + 2
 			}
 			continue
+		case vkDeflated:
+			name, depth, size = "z"+idx, 0, 48
 		case vkInDir:
 			name, depth = "d/g"+idx, 1
 		case vkDeep:
@@ -109,6 +112,10 @@ func vGenEntries(tag string, maxEntries int, allowNested bool, recursive bool, d
 			continue
 		}
 		e := vEntry{name: name, content: vContent(size), declared: -1}
+		if kind == vkDeflated {
+			e.content = make([]byte, size) // zeros: compresses to a few bytes
+			e.deflate = true
+		}
 		if i == 0 && size > 0 && kind == vkFile && allowNested {
 			switch verif.Choice(tag+"lie", 3) {
 			case 1:
